@@ -131,6 +131,8 @@ Definition area_ok (ar : area) (q : Q) : Prop :=
                    k_cap a + (p1 a - p0 a) * lf_cap a <= a_max_q a
   | AStatcom lo hi => lo <= hi
   | AOracle b lo hi => lo <= hi /\ (b = true -> lo <= q /\ q <= hi)
+  | A4130 a _ _ _ => lf_ind a <= 0 /\ a_min_q a <= k_ind a + (p1 a - p0 a) * lf_ind a /\
+                     k_cap a + (p1 a - p0 a) * lf_cap a <= a_max_q a
   end.
 
 (* only a PQV area applies (no apparent-power saturation): whenever _saturate returns, the reactive power it returns lies
@@ -141,7 +143,7 @@ Lemma area_result_in_flex ar q_prio rt p q vm p' q' :
   p' = p /\ exists lo hi, area_flex ar p vm = Some (lo, hi) /\ lo <= q' /\ q' <= hi.
 Proof.
   intros Hn Hok. unfold saturate, area_step.
-  destruct ar as [|a v r|lo hi|b lo hi]; [contradiction| | |].
+  destruct ar as [|a v r|lo hi|b lo hi|a l1 l2 r]; [contradiction| | | |].
   - (* 4120 *)
     destruct Hok as (K1 & K2 & K3).
     destruct (area_in (A4120 a v r) p q vm) eqn:E.
@@ -166,6 +168,17 @@ Proof.
       exists lo, hi. split; [reflexivity | apply K2; reflexivity].
     + cbn [area_in area_flex saturate_sn]. intros H. injection H as Hp Hq. rewrite <- Hp, <- Hq. split; [reflexivity|].
       exists lo, hi. split; [reflexivity | apply clamp_in; exact K1].
+  - (* 4130: PQArea4130 + piecewise-linear QV limits *)
+    destruct Hok as (K1 & K2 & K3).
+    destruct (area_in (A4130 a l1 l2 r) p q vm) eqn:E.
+    + cbn [saturate_sn]. intros H. injection H as Hp Hq. rewrite <- Hp, <- Hq. split; [reflexivity|].
+      cbn [area_in] in E. apply andb_true_iff in E. destruct E as [E1 E2].
+      apply (pq4120_in_sound a p q K1 K2 K3) in E1.
+      cbn [area_flex]. apply merge_within; assumption.
+    + destruct (area_flex (A4130 a l1 l2 r) p vm) as [[lo hi]|] eqn:F; [|discriminate].
+      cbn [saturate_sn]. intros H. injection H as Hp Hq. rewrite <- Hp, <- Hq. split; [reflexivity|].
+      exists lo, hi. split; [reflexivity|]. cbn [area_flex] in F. apply merge_spec in F. destruct F as [F _].
+      apply clamp_in. exact F.
 Qed.
 
 (* ---------------------------------------------------------------- damping *)
